@@ -597,12 +597,20 @@ func (v val) enc() sutils.CValueEnclosure {
 		return sutils.CValueEnclosure{Dtype: sutils.SS_DT_UNSIGNED_NUM, CVal: v.Bits}
 	case "f":
 		return sutils.CValueEnclosure{Dtype: sutils.SS_DT_FLOAT, CVal: float64(v.Micro) / 1e6}
-	case "s", "ns":
+	case "s", "ns", "NS":
 		return sutils.CValueEnclosure{Dtype: sutils.SS_DT_STRING, CVal: v.S}
 	case "b":
 		return sutils.CValueEnclosure{Dtype: sutils.SS_DT_BOOL, CVal: v.S == "true"}
 	}
 	return sutils.CValueEnclosure{Dtype: sutils.SS_DT_BACKFILL, CVal: nil}
+}
+
+// decimal form of an integer of kind I / U
+func (v val) intString() string {
+	if v.Kind == "U" {
+		return strconv.FormatUint(v.Bits, 10)
+	}
+	return strconv.FormatInt(int64(v.Bits), 10)
 }
 
 func (v val) isNum() bool { return v.Kind == "i" || v.Kind == "f" || v.Kind == "I" || v.Kind == "U" }
@@ -618,28 +626,33 @@ func (v val) microBig() *big.Int {
 	return big.NewInt(v.Micro)
 }
 
-// the float64 the comparator computes for a number (used only to separate the known float64
-// collapse of integer keys from real inversions)
-func (v val) f64() float64 {
-	switch v.Kind {
-	case "I":
-		return float64(int64(v.Bits))
-	case "U":
-		return float64(v.Bits)
-	}
-	return float64(v.Micro) / 1e6
-}
 
 func (v val) coq() string {
 	switch v.Kind {
-	case "i", "f":
+	case "f":
 		e := v.enc()
 		s, _ := e.GetValueAsString() // string form as the real code produces it (used by op=str)
 		return fmt.Sprintf("(vnum %s %s)", vhlib.CoqZ(v.Micro), vhlib.CoqStr(s))
-	case "I", "U":
+	case "i", "I", "U":
+		// integer dtypes go to the model as dtype + the 64 bits of CVal
 		e := v.enc()
 		s, _ := e.GetValueAsString()
-		return fmt.Sprintf("(vint %s %d %s)", vhlib.CoqBool(v.Kind == "U"), v.Bits, vhlib.CoqStr(s))
+		bits := v.Bits
+		if v.Kind == "i" {
+			bits = uint64(v.Micro / 1000000)
+		}
+		return fmt.Sprintf("(vint %s %d %s)", vhlib.CoqBool(v.Kind == "U"), bits, vhlib.CoqStr(s))
+	case "NS":
+		// numeric string holding a large integer: the model gets the float64 that ParseFloat
+		// yields (exactly, in units of 1e-6)
+		f, _ := strconv.ParseFloat(v.S, 64)
+		z, _ := new(big.Float).SetFloat64(f).Int(nil)
+		z.Mul(z, big.NewInt(1000000))
+		zs := z.String()
+		if z.Sign() < 0 {
+			zs = "(" + zs + ")"
+		}
+		return fmt.Sprintf("(vnstr %s %s)", zs, vhlib.CoqStr(v.S))
 	case "s", "b": // a bool has the string rank under every op and compares by its string form
 		return fmt.Sprintf("(vstr %s)", vhlib.CoqStr(v.S))
 	case "ns":
@@ -658,7 +671,7 @@ func (v val) String() string {
 		return strconv.FormatUint(v.Bits, 10) + "(uint64)"
 	case "f":
 		return strconv.FormatFloat(float64(v.Micro)/1e6, 'f', -1, 64)
-	case "s", "ns":
+	case "s", "ns", "NS":
 		return strconv.Quote(v.S)
 	case "b":
 		return v.S + "(bool)"
@@ -667,12 +680,13 @@ func (v val) String() string {
 }
 
 // Integer-typed keys over the whole signed and unsigned 64-bit range.
-// exact=true (main stream): integers that float64 represents exactly (m * 2^k with m < 2^53),
+// exact=true (columns that may also hold floats / numeric strings): integers that float64 represents exactly (m * 2^k with m < 2^53),
 // so two different keys stay different in the comparator's float64 arithmetic: small values of
 // both dtypes, the neighbourhoods of 2^53, 2^62, 2^63 (largest int64 that is exact: 2^63-1024),
 // 2^64 (largest exact uint64: 2^64-2048), the most negative int64.
-// exact=false (separate stream): clusters of neighbouring integers above 2^53 whose float64
-// images coincide.
+// exact=false (integer-only columns): clusters of neighbouring integers above 2^53 whose float64
+// images coincide — two integers are compared exactly, so these are ordinary inputs; next to a
+// float or a numeric string such an integer still goes through float64.
 func genInt64(r *vhlib.Rng, exact bool) val {
 	mk := func(neg bool, mag uint64) val {
 		switch {
@@ -771,20 +785,9 @@ func (e ele) coq() string {
 
 // oracle comparison for homogeneous columns: -1, 0, +1 in the requested direction;
 // ok=false when the pair is outside the oracle's scope (mixed kinds, nulls, op=str on numbers)
-func oracleCmp(e ele, a, b val) (int, bool) { return oracleCmpL(e, a, b, false) }
-
-// loose=true (only for the float64-collapse stream): integers are compared by their float64
-// images, i.e. keys that the known finding makes indistinguishable count as equal
-func oracleCmpL(e ele, a, b val, loose bool) (int, bool) {
+func oracleCmp(e ele, a, b val) (int, bool) {
 	c := 0
 	switch {
-	case a.isNum() && b.isNum() && e.Op != "str" && loose:
-		fa, fb := a.f64(), b.f64()
-		if fa < fb {
-			c = -1
-		} else if fa > fb {
-			c = 1
-		}
 	case a.isNum() && b.isNum() && e.Op != "str":
 		// the numeric order of the property text: exact values, whatever the dtype
 		c = a.microBig().Cmp(b.microBig())
@@ -804,11 +807,9 @@ func mightBeNum(s string) bool {
 	return err == nil
 }
 
-func oracleLess(eles []ele, a, b []val) (int, bool) { return oracleLessL(eles, a, b, false) }
-
-func oracleLessL(eles []ele, a, b []val, loose bool) (int, bool) {
+func oracleLess(eles []ele, a, b []val) (int, bool) {
 	for i, e := range eles {
-		c, ok := oracleCmpL(e, a[i], b[i], loose)
+		c, ok := oracleCmp(e, a[i], b[i])
 		if !ok {
 			return 0, false
 		}
@@ -825,15 +826,6 @@ func judgeSorted(sum *vhlib.Summary, classPrefix string, eles []ele, all [][]val
 	clsOrder, clsPrefix := "sort_out_of_order", "sort_limit_not_prefix"
 	if knownClass != "" {
 		clsOrder, clsPrefix = knownClass, knownClass
-	}
-	if knownClass == clsCollapse {
-		// an inversion that the coinciding float64 images cannot explain belongs to the main class
-		for i := 1; i < len(res); i++ {
-			if cmp, ok := oracleLessL(eles, res[i-1], res[i], true); ok && cmp > 0 {
-				sum.Fail("sort_out_of_order", fmt.Sprintf("%s: result row %d %v comes before row %d %v", detail, i-1, res[i-1], i, res[i]), c)
-				return
-			}
-		}
 	}
 	for i := 1; i < len(res); i++ {
 		cmp, ok := oracleLess(eles, res[i-1], res[i])
@@ -876,13 +868,11 @@ func judgeSorted(sum *vhlib.Summary, classPrefix string, eles []ele, all [][]val
 // ---------------------------------------------------------------------------
 // direct tier: compareValues, sortProcessor, head, tail
 // ---------------------------------------------------------------------------
-const (
-	clsTolerance = "sort_almost_equals_tolerance"
-	clsCollapse  = "sort_int_keys_float64_collapse"
-)
+const clsTolerance = "sort_almost_equals_tolerance"
 
-// stream: 0 main, 1 numeric keys closer than 1e-4 (known finding), 2 integer keys above 2^53
-// whose float64 images coincide (known finding)
+// stream: 0 main, 1 numeric keys closer than 1e-4 (known finding), 2 dense integer keys: clusters
+// of neighbouring integers above 2^53 in both dtypes (float64 cannot tell them apart; the
+// comparator must: an ordinary stream, judged by the main classes)
 func genValS(r *vhlib.Rng, kindMix int, stream int) val {
 	if stream == 2 {
 		return genInt64(r, false)
@@ -923,12 +913,16 @@ func runCompare(cfg vhlib.Config, sum *vhlib.Summary, r *vhlib.Rng) {
 		n = 15000
 	}
 	for i := 0; i < n; i++ {
-		close := i%10 == 9 // known-finding streams: the model has the same tolerance / float64 conversion, so it still must agree
 		stream := 0
-		if close {
-			stream = 1 + (i/10)%2
+		if i%10 == 9 {
+			stream = 1 + (i/10)%2 // 1: known-finding stream (the model has the same tolerance, so it still must agree); 2: dense integers
 		}
 		a, b := genValS(r, 2, stream), genValS(r, 2, stream)
+		if stream == 2 && r.Chance(30) {
+			// an integer against a numeric string holding a neighbouring integer: this pair still
+			// goes through float64 (compared with the model only; mixed kinds are outside the oracle)
+			b = val{Kind: "NS", S: genInt64(r, false).intString()}
+		}
 		if r.Chance(15) {
 			b = a
 		}
@@ -949,20 +943,14 @@ func runCompare(cfg vhlib.Config, sum *vhlib.Summary, r *vhlib.Rng) {
 				want = 3
 			}
 			if got != want {
-				cls := "sort_out_of_order"
-				if stream == 2 && got == 1 {
-					// known finding: two different integers with the same float64 image are EQUAL;
-					// the opposite direction stays in the main class
-					cls = clsCollapse
-				}
-				sum.Fail(cls, fmt.Sprintf("compareValues(%v,%v,asc=%v,op=%q)=%d, the requested order says %d", a, b, e.Asc, e.Op, got, want), c)
+				sum.Fail("sort_out_of_order", fmt.Sprintf("compareValues(%v,%v,asc=%v,op=%q)=%d, the requested order says %d", a, b, e.Asc, e.Op, got, want), c)
 			}
 		}
 		terms = append(terms, fmt.Sprintf("(%s,%s,%s,%d)", e.coq(), a.coq(), b.coq(), got))
 		sum.Eval(fmt.Sprintf("cmp/%v/%v/%v", a, b, e), a != b)
 		sum.Count("compare_values/" + a.Kind + "_" + b.Kind)
 		if stream == 2 {
-			sum.Count("compare_values/known_stream_int_float64_collapse")
+			sum.Count("compare_values/dense_integers_above_2p53")
 		}
 	}
 	writeSharded(cfg, sum, "cases_cmp", "list ((bool * N) * value * value * N)", "check_cmp cases", terms, 500)
@@ -981,7 +969,7 @@ func runSortProc(cfg vhlib.Config, sum *vhlib.Summary, r *vhlib.Rng) {
 	}
 	for i := 0; i < n; i++ {
 		known := i%8 == 7    // separate stream: numeric keys closer than 1e-4
-		collapse := i%8 == 3 // separate stream: integer keys above 2^53 with coinciding float64 images
+		collapse := i%8 == 3 // first key: dense integers above 2^53 (coinciding float64 images), both dtypes
 		nk := r.Range(1, 3)
 		eles := make([]ele, nk)
 		mix := make([]int, nk)
@@ -1074,8 +1062,6 @@ func runSortProc(cfg vhlib.Config, sum *vhlib.Summary, r *vhlib.Rng) {
 		knownClass := ""
 		if known {
 			knownClass = clsTolerance
-		} else if collapse {
-			knownClass = clsCollapse
 		}
 		judgeSorted(sum, "direct", eles, all, res, limit, knownClass, fmt.Sprintf("sortProcessor %v limit=%d over %d batches", eles, limit, len(in)), c)
 		// Coq case (the tolerance stream is not compared with the model: under a comparator that
@@ -1106,7 +1092,7 @@ func runSortProc(cfg vhlib.Config, sum *vhlib.Summary, r *vhlib.Rng) {
 		if known {
 			sum.Count("sort_processor/known_stream_close_values")
 		} else if collapse {
-			sum.Count("sort_processor/known_stream_int_float64_collapse")
+			sum.Count("sort_processor/dense_integers_above_2p53")
 		} else {
 			sum.Count(fmt.Sprintf("sort_processor/keys%d", nk))
 		}
@@ -1261,8 +1247,8 @@ func genN(r *vhlib.Rng, exact bool) int64 {
 	}
 }
 
-// stream: 0 main, 1 values of v closer than 1e-4 (known finding), 2 values of n above 2^53 with
-// coinciding float64 images (known finding)
+// stream: 0 main, 1 values of v closer than 1e-4 (known finding), 2 dense values of n above 2^53
+// (coinciding float64 images; ordinary stream)
 func genScenario(r *vhlib.Rng, idx int, stream int) scenario {
 	known := stream != 0
 	sc := scenario{Index: fmt.Sprintf("c05ix%d", idx), MaxProcs: vhlib.Pick(r, []int{1, 1, 2, 3, 0})}
@@ -1552,7 +1538,7 @@ func judgeScenario(sum *vhlib.Summary, sc scenario, out workerOut, knownClass st
 				res = append(res, keyVals(name, byID[rw.ID]))
 			}
 			judgeSorted(sum, "e2e", eles, all, res, limit, knownClass, what, c)
-			if knownClass == clsCollapse || (knownClass == "" && len(*sortTerms) < 400) {
+			if knownClass == "" && len(*sortTerms) < 400 {
 				et := make([]string, len(eles))
 				for k, e := range eles {
 					et[k] = e.coq()
@@ -1577,8 +1563,8 @@ func judgeScenario(sum *vhlib.Summary, sc scenario, out workerOut, knownClass st
 		if kind == "all" {
 			sum.Count(fmt.Sprintf("e2e/layout/maxBlocks_per_fetch=%d", sc.MaxProcs))
 		}
-		if knownClass == clsCollapse {
-			sum.Count("e2e/known_stream_int_float64_collapse")
+		if strings.HasPrefix(kind, "sortc_") {
+			sum.Count("e2e/dense_integers_above_2p53")
 		} else if known {
 			sum.Count("e2e/known_stream_close_values")
 		} else {
@@ -1618,22 +1604,24 @@ func runE2E(cfg vhlib.Config, sum *vhlib.Summary, r *vhlib.Rng) {
 	}
 	jobs := make([]*job, 0, n+nk+nc+2)
 	ra, rb, rc := r.Fork(), r.Fork(), r.Fork()
+	// dense-integer scenarios first: their sort results all go to Coq (the number of e2e sort
+	// cases compared with the model is capped)
+	for i := 0; i < nc; i++ {
+		jobs = append(jobs, &job{sc: genScenario(rc, n+nk+i, 2)})
+	}
 	for i := 0; i < n; i++ {
 		jobs = append(jobs, &job{sc: genScenario(ra, i, 0)})
 	}
 	for i := 0; i < nk; i++ {
 		jobs = append(jobs, &job{sc: genScenario(rb, n+i, 1), known: clsTolerance})
 	}
-	for i := 0; i < nc; i++ {
-		jobs = append(jobs, &job{sc: genScenario(rc, n+nk+i, 2), known: clsCollapse})
-	}
-	// a fixed scenario for the float64 collapse of integer keys: `sort num(n)` compares 2^53+1
-	// EQUAL to 2^53, so whichever way ties come out, a 2^53+1 stays in front of a 2^53
+	// a fixed scenario for integer keys that float64 cannot tell apart: if `sort num(n)` compared
+	// 2^53+1 EQUAL to 2^53, then whichever way ties come out, a 2^53+1 would stay in front of a 2^53
 	fixedC := scenario{Index: "c05fixedc", Steps: []step{{Events: []event{
 		{ID: 1, TS: baseTS + 1, N: 1<<53 + 1}, {ID: 2, TS: baseTS + 2, N: 1 << 53},
 		{ID: 3, TS: baseTS + 3, N: 1<<53 + 1}, {ID: 4, TS: baseTS + 4, N: 1 << 53}}}},
 		Queries: []querySpec{{Name: "sortc_n_asc", Text: "* | sort 10000 num(n)", Size: 100}}}
-	jobs = append([]*job{{sc: fixedC, known: clsCollapse}}, jobs...)
+	jobs = append([]*job{{sc: fixedC}}, jobs...)
 	// a fixed scenario for the known finding of DESIGN §4.1
 	fixed := scenario{Index: "c05fixed", Steps: []step{{Events: []event{
 		{ID: 1, TS: baseTS + 1, VM: 1000050, V: 1.00005}, {ID: 2, TS: baseTS + 2, VM: 1000000, V: 1},
@@ -1749,7 +1737,7 @@ func main() {
 	cfg := vhlib.ParseFlags()
 	sum := vhlib.NewSummary("direct tier: one case = one call of the real getNextBlocks / sortBlocks / getValidRRCs (all block lists of up to 4 blocks over timestamps 0..4 sorted for the mode x maxBlocks 1..5 x both modes; all lists of up to 3 blocks for sortBlocks; all sorted timestamp lists up to length 4 x thresholds 0..5; random larger ones), one multi-step run of the real segment selection (getQSRSToProcess+getFilteredBlocks) over 0-5 overlapping segments, one compareValues pair, one sortProcessor run over 1-5 batches (1-3 keys, num/str/auto, both directions, limits 1..5000, homogeneous and mixed columns incl. numeric strings, bools and nulls; numbers = floats with 3 decimals, small ints and integer-typed values of both dtypes SS_DT_SIGNED_NUM / SS_DT_UNSIGNED_NUM over the whole int64 / uint64 range: neighbourhoods of 0, 2^53, 2^62, 2^63, 2^64, MinInt64, random 53-bit mantissas shifted by 0..10 bits), one head/tail processor run; " +
 		"end to end: one case = one query against a store built in a worker process from 1-6 flushes (blocks) with forced rotations (segments), events arriving out of time order with ties and overlapping block/segment ranges: match-all with size >= n and size < n, head n, tail n, sort (12 key shapes incl. an int64 column n with values up to +-2^63) with head / limit, from/size paging over all pages; " +
-		"the known-finding classes have their own streams (numeric sort keys closer than 1e-4; integer keys above 2^53 with coinciding float64 images), main-stream numeric sort keys are multiples of 1e-3 or integers that float64 represents exactly; distinct by input; non-trivial = more than one block / record / event")
+		"the known-finding class (numeric sort keys closer than 1e-4) has its own stream; main-stream numeric sort keys are multiples of 1e-3 or integers that float64 represents exactly, integer-only columns also get dense clusters of neighbouring integers above 2^53 (both dtypes); distinct by input; non-trivial = more than one block / record / event")
 	r := vhlib.NewRng(cfg.Seed)
 	runE2E(cfg, sum, r.Fork())
 	runNextBlocks(cfg, sum, r.Fork())
@@ -1762,7 +1750,7 @@ func main() {
 	runHeadTail(cfg, sum, r.Fork())
 	sum.Notes = append(sum.Notes,
 		"numeric sort keys are decimals with at most 6 places; the model compares them as exact integers in units of 1e-6 (float64 rounding of decimals is not modelled; main-stream keys are multiples of 1e-3, far from the 1e-4 tolerance boundary)",
-		"integer-typed keys go to the model as (dtype, 64-bit pattern): the model reads the bits per dtype and applies its own float64 conversion (round to 53 bits, nearest-even), so the collapse stream is compared with the model too",
+		"integer-typed keys go to the model as (dtype, 64-bit pattern): the model compares two integers by sign and bits (compareInts) and applies its own float64 conversion (round to 53 bits, nearest-even) where an integer meets a float or a numeric string",
 		"sort.Slice / the top-N heap are not stable: observations are compared with the model up to ties (equal keys)")
 	sum.Write(cfg.Out)
 }
